@@ -240,6 +240,12 @@ def build_harness(tags="verif"):
     """Build the harness binary against /repo's CURRENT working tree. Returns path."""
     os.makedirs(BUILD, exist_ok=True)
     shutil.copy(os.path.join(REPO, "go.sum"), os.path.join(HARNESS, "go.sum"))
+    # the harness module resolves f1 from REPO (normally /repo; a snapshot when VERIF_REPO is set for background sweeps)
+    gm = os.path.join(HARNESS, "go.mod")
+    txt = open(gm).read()
+    new = re.sub(r"replace github.com/form3tech-oss/f1/v2 => \S+", "replace github.com/form3tech-oss/f1/v2 => " + REPO, txt)
+    if new != txt:
+        open(gm, "w").write(new)
     out = os.path.join(BUILD, "drive")
     t0 = time.time()
     p = subprocess.run(["go", "build", "-tags", tags, "-o", out, "./cmd/drive"], cwd=HARNESS,
